@@ -93,7 +93,12 @@ Inductive case :=
   (* verifyOneSig(keys, set, sig) == nil; ref: some key of the list verifies under the library / math/big *)
 | CaseOneSig (keys : list (N * list dnskey)) (set : list rr) (s : rrsig) (valid_now : bool)
              (t : list oracle) (ecp : list (list N * bool)) (ev : list (list N * list N * bool))
-             (got ref eqdom : bool).
+             (got ref eqdom : bool)
+  (* VerifyRRSIG(signer, keys, msg) = ok && err == nil on a whole message (answer and authority
+     sections in order, each RRSIG with its ValidityPeriod(now)); ref: the Go-side reference *)
+| CaseMsg (signer : list N) (keys : list (N * list dnskey)) (answer ns : list mitem)
+          (t : list oracle) (ecp : list (list N * bool)) (ev : list (list N * list N * bool))
+          (got ref eqdom : bool).
 
 Definition opt_eqb {A} (eq : A -> A -> bool) (a b : option A) : bool :=
   match a, b with
@@ -142,6 +147,10 @@ Definition check_case (c : case) : bool :=
       Bool.eqb (verify_one_sig_pm powmod_fast (tbl_H t) (tbl_ECP ecp) (fun _ pub dg sg => negb (is_nil dg) && tbl_EV ev pub sg)
                                (fun pub msg sg => existsb (fun o => list_eqb msg (o_msg o)) t && tbl_EV ev pub sg)
                                orc_LIBV keys set s valid_now) got
+  | CaseMsg signer keys answer ns t ecp ev got _ _ =>
+      Bool.eqb (verify_rrsig_pm powmod_fast (tbl_H t) (tbl_ECP ecp) (fun _ pub dg sg => negb (is_nil dg) && tbl_EV ev pub sg)
+                               (fun pub msg sg => existsb (fun o => list_eqb msg (o_msg o)) t && tbl_EV ev pub sg)
+                               orc_LIBV signer keys answer ns) got
   end.
 
 (* ------------------------------------------------------------------ spec *)
@@ -290,5 +299,7 @@ Definition spec_case (c : case) : bool :=
       implb' got lib && implb' (lib && negb (dt =? 5) && negb (is_nil (fst (b64_decode (k_pub k))))) got
   | CaseVerifyDS _ _ _ got ref => bb_eqb got ref
   | CaseOneSig _ _ _ _ _ _ _ got ref eqdom =>
+      implb' got ref && implb' eqdom (Bool.eqb got ref)
+  | CaseMsg _ _ _ _ _ _ _ got ref eqdom =>
       implb' got ref && implb' eqdom (Bool.eqb got ref)
   end.
